@@ -13,7 +13,9 @@ EXHAUSTIVE = {'quick': True, 'thorough': True}
 RULE = ('complete enumeration: every registered logic x 8 truth-functional operators x every tuple of '
         'its values compared with the reference tables (vf/refsem.py, written from doc prose and the cited '
         'literature); value set and designated set; the documented definitions of > < $ % * checked on the '
-        "code's own functions; every modal extension compared cell by cell with its base logic. "
+        "code's own functions; every modal extension compared cell by cell with its base logic; the same tables read through "
+        'the model evaluator: value_of(op(X, Y)) against the table at value_of(X), value_of(Y) for operands of every kind '
+        '(letter, predication, quantified, modal, uninterpreted) and every value pair. '
         'Every (logic, operator, value-tuple) cell is one distinct non-trivial case; so is every '
         '(logic, definition, value-tuple) obligation.')
 ASSUMPTIONS = [
@@ -118,6 +120,70 @@ def check_logic(name):
                     yield ('ok', key)
 
 
+def evaluator_cells(name):
+    """The same tables seen through the model evaluator: for every operator and every pair of values, with operands
+    of every kind (letter, predication, quantified, modal, uninterpreted), value_of(op(X, Y)) must be the documented
+    table applied to value_of(X), value_of(Y).  Yields ('ok', key) | (fingerprint, detail, key)."""
+    logic = get_logic(name)
+    V = R.values(name)
+    ref = R.tables(name)
+    modal = R.is_modal(name)
+    a = A.const(0)
+    F, G = (0, 0, 1), (1, 0, 1)
+    x = A.var(0)
+    kinds_x = [('letter', A.atom(0)), ('predication', ('P', F, (a,)))]
+    kinds_y = [('letter', A.atom(1)), ('predication', ('P', G, (a,)))]
+    # quantified / modal operands: interpreted where the logic has them, uninterpreted (set directly) elsewhere
+    kinds_x += [('existential', ('Q', 'Existential', x, ('P', F, (x,)))), ('universal', ('Q', 'Universal', x, ('P', F, (x,))))]
+    kinds_y += [('existential', ('Q', 'Existential', x, ('P', G, (x,)))), ('universal', ('Q', 'Universal', x, ('P', G, (x,))))]
+    kinds_x += [('possibility', A.op('Possibility', A.atom(0))), ('necessity', A.op('Necessity', A.atom(0)))]
+    kinds_y += [('possibility', A.op('Possibility', A.atom(1))), ('necessity', A.op('Necessity', A.atom(1)))]
+    kw = dict(world=0) if modal else {}
+    for v1 in V:
+        for v2 in V:
+            m = logic.Model()
+            m.set_atomic_value(A.to_lib(A.atom(0)), v1, **kw)
+            m.set_atomic_value(A.to_lib(A.atom(1)), v2, **kw)
+            m.set_predicated_value(A.to_lib(('P', F, (a,))), v1, **kw)
+            m.set_predicated_value(A.to_lib(('P', G, (a,))), v2, **kw)
+            if modal:
+                m.R.add((0, 0))
+            for _, sx in kinds_x:
+                if m.is_sentence_opaque(A.to_lib(sx)):
+                    m.set_opaque_value(A.to_lib(sx), v1, **kw)
+            for _, sy in kinds_y:
+                if m.is_sentence_opaque(A.to_lib(sy)):
+                    m.set_opaque_value(A.to_lib(sy), v2, **kw)
+            m.finish()
+            val = lambda s: str(m.value_of(A.to_lib(s), **kw))
+            for oper in TF_OPS:
+                n = A.OPS[oper]
+                for kx, sx in kinds_x:
+                    for ky, sy in (kinds_y if n == 2 else [(None, None)]):
+                        key = ('eval', name, oper, kx, ky, v1, v2)
+                        try:
+                            if n == 1:
+                                got = val(A.op(oper, sx))
+                                args = (val(sx),)
+                            else:
+                                got = val(A.op(oper, sx, sy))
+                                args = (val(sx), val(sy))
+                        except Exception as e:
+                            yield (f'C07|evaluator-raises|{family_tag(name)}|{oper}|{type(e).__name__}',
+                                   f'{name}: evaluating {oper} on a {kx} / {ky} operand raised {e!r}', key)
+                            continue
+                        want = ref.apply(oper, *args)
+                        if got != want:
+                            cell = ','.join(args)
+                            # FDE family: the same 12 known cells, seen through the evaluator
+                            fp = f'C07|table|{family_tag(name)}|{oper}|{cell}' if R.base_of(name) == 'FDE' and {'N', 'B'} <= set(args) | {ref.neg[x_] for x_ in args} else \
+                                f'C07|evaluator|{family_tag(name)}|{oper}|{kx}+{ky}|{cell}'
+                            yield (fp, f'{name}: value_of of {oper} applied to a {kx}{"" if ky is None else " and a " + ky} operand with values '
+                                   f'({cell}) is {got}, documented table gives {want}', key)
+                        else:
+                            yield ('ok', key)
+
+
 def run_shard(shard, acc):
     if shard.get('registry'):
         names = set(all_logic_names())
@@ -129,7 +195,8 @@ def run_shard(shard, acc):
         return
     for name in shard['logics']:
         nshown = 0
-        for res in check_logic(name):
+        from itertools import chain
+        for res in chain(check_logic(name), evaluator_cells(name)):
             if res[0] == 'ok':
                 key = res[1]
                 sample = None
@@ -144,6 +211,9 @@ def run_shard(shard, acc):
 
 
 def replay(case):
+    if case.get('key') and case['key'][0] == 'eval':
+        want_key = A.from_json(case['key'])
+        return [(r[0], r[1]) for r in evaluator_cells(case['logic']) if r[0] != 'ok' and r[2] == want_key]
     if case.get('kind') == 'registry':
         names = set(all_logic_names())
         return [('C07|registry', 'registry differs')] if names != set(R.LOGICS) else []
